@@ -626,10 +626,22 @@ def _guarded_by_keyed_operand(f: Func, store: ast.stmt) -> tuple[bool, str]:
     if not xs:
         return False, "no isinstance(<operand>, SignalRef) guard"
     keyed_slots = {"left", "right", "output_value"}
-    for n in walk_local(f.node):
-        if isinstance(n, ast.Assign) and len(n.targets) == 1 and isinstance(n.targets[0], ast.Attribute) and n.targets[0].attr in keyed_slots:
-            if norm(n.value) in xs:
-                return True, f"guarded by isinstance({norm(n.value)}, SignalRef); {norm(n.value)} is stored in .{n.targets[0].attr}"
+    stored = {norm(n.value): n.targets[0].attr for n in walk_local(f.node)
+              if isinstance(n, ast.Assign) and len(n.targets) == 1 and isinstance(n.targets[0], ast.Attribute) and n.targets[0].attr in keyed_slots}
+    for x in xs:
+        if x in stored:
+            return True, f"guarded by isinstance({x}, SignalRef); {x} is stored in .{stored[x]}"
+    # a local that merely selects among keyed operands (`c = left if isinstance(left, SignalRef) else right`) is a function of the key as well:
+    # every name its definition reads is a parameter stored in a keyed slot (or a class name)
+    from .util import canon as _canon_g
+    cg = _canon_g(f)
+    for g in guards:
+        for sub in ast.walk(g.test):
+            if isinstance(sub, ast.Call) and call_name(sub) == "isinstance" and len(sub.args) == 2 and "SignalRef" in norm(sub.args[1]) and isinstance(sub.args[0], ast.Name):
+                expanded = cg.text(sub.args[0])
+                names = {n_.id for n_ in ast.walk(ast.parse(expanded, mode="eval")) if isinstance(n_, ast.Name)} - {"isinstance", "SignalRef", "BundleRef"}
+                if names and names <= set(stored):
+                    return True, f"guarded by isinstance over `{expanded[:60]}`, a selection among the keyed operands {sorted(names)}"
     return False, f"guard operand(s) {xs} not stored in a keyed slot"
 
 
